@@ -39,6 +39,20 @@ CLAIMED = {
              "event lists of length 2 (stated as bounded in the evidence); control events add/subtract/jump not yet "
              "under contract.",
         ref="4.C18"),
+    "C13": dict(
+        text="DelayManager (add/remove/reset/add_if_doesnt_exist/check/run_now/_process_delay_callback) verified "
+             "against representation invariant D1 (delay names and this manager's live loop handles are in bijection, "
+             "each handle carrying name, callback and stored kwargs): a replaced or removed delay's handle is "
+             "cancelled, check() is truthful, run_now() calls the stored callback with the stored arguments after "
+             "freeing the name; scheduled time is exactly now+ms/1000. PeriodicTask: _last_call advances by exactly "
+             "one interval per tick and the next tick is scheduled at an absolute time (no drift), never when "
+             "cancelled. Exactly-once then follows from the asyncio loop contract.",
+        note="Trusted: asyncio loop model (fresh handles, cancel prevents the call, a live handle fires once not "
+             "before its time), uuid4 freshness, reals for floats, rely on user callbacks using only the public API. "
+             "Quantified invariants are discharged by z3 with ground instantiation; a candidate counterexample from "
+             "the instantiated query is reported only when the native replay confirms it. DelayManager.clear and the "
+             "Timer device are not yet under contract.",
+        ref="4.C13"),
 }
 
 NA = {}
